@@ -111,7 +111,10 @@ LocalOnly(lp, rp) ==
   IF "MergeNoDedup" \in Deviations THEN lp ELSE Without(lp, Range(Evs(rp)))
 
 Idle(d) == pc[d] = "idle"
-OthersIdle(d) == Mode = "concurrent" \/ \A e \in Devices \ {d} : Idle(e)
+(* concurrent mode: sync calls of different devices interleave freely at   *)
+(* request granularity while editing goes on; after Quiesce the further    *)
+(* rounds are sequential ("a further round of syncs converges")            *)
+OthersIdle(d) == (Mode = "concurrent" /\ ~quiesced) \/ \A e \in Devices \ {d} : Idle(e)
 
 ---------------------------------------------------------------------------
 Init ==
@@ -257,7 +260,13 @@ ReqPatch(d) ==
          sp  == Locate(Evs(srv), c, loc[d].anc)
      IN IF sp = 0
         THEN /\ Finish(d, "Err") /\ UNCHANGED <<srv, accepted>>
-        ELSE IF SubSeq(Evs(srv), 1, sp) = anc
+        ELSE IF /\ SubSeq(Evs(srv), 1, sp) = anc
+                (* the rewind must not discard events the patch does not  *)
+                (* carry: they were accepted from somebody else after     *)
+                (* this device fetched its diff (PatchDropsAccepted: the  *)
+                (* code does not check)                                   *)
+                /\ \/ "PatchDropsAccepted" \in Deviations
+                   \/ Range(Evs(After(srv, sp))) \subseteq Range(Evs(loc[d].events))
              THEN /\ srv' = SubSeq(srv, 1, sp) \o loc[d].events
                   /\ accepted' = accepted \cup Range(loc[d].events)
                   /\ pc' = [pc EXCEPT ![d] = "rewind"]
@@ -326,7 +335,8 @@ ServerMonotone ==
        \/ IsPrefix(srv, srv')
        \/ \E p \in 1..Len(srv) : IsPrefix(SubSeq(srv, 1, p), srv')]_vars
 NoAcceptedDropped ==
-  \A r \in accepted : \E i \in 1..Len(srv) : srv[i] = r
+  \A r \in accepted : \E i \in 1..Len(srv) :
+     IF r.ev.k \in Shared THEN srv[i].ev = r.ev ELSE srv[i] = r
 
 TypeOK == \A d \in Devices : pc[d] \in {"idle", "status", "reply", "scan", "diff",
                                         "push", "rewind", "hard"}
